@@ -105,7 +105,33 @@ pub fn too_deep(text: &str) -> bool {
     n > 1500
 }
 
+/// a header of 63-130 columns and rows of 0 / 1 / C / X / Z entries that fill it (or nearly do)
+fn wide(ch: &mut Ch) -> String {
+    let n = *ch.choose(&[63usize, 64, 65, 66, 70, 128, 130]);
+    let mut t = String::new();
+    for k in 0..n {
+        t.push_str(&format!("S{k} "));
+    }
+    t.push('\n');
+    for _ in 0..1 + ch.upto(4) {
+        let m = match ch.upto(6) {
+            0 => n - 1,
+            1 => n + 1,
+            _ => n,
+        };
+        for _ in 0..m {
+            t.push_str(["0", "1", "C", "X", "Z", "c", "(1)"][ch.weighted(&[6, 4, 3, 2, 1, 1, 1])]);
+            t.push(' ');
+        }
+        t.push('\n');
+    }
+    t
+}
+
 fn soup(ch: &mut Ch) -> String {
+    if ch.chance(1, 16) {
+        return wide(ch);
+    }
     let mut t = String::new();
     // a plausible header
     match ch.upto(4) {
@@ -218,7 +244,7 @@ impl Property for C09 {
         "C09"
     }
     fn rule(&self) -> &'static str {
-        "three generators: (a) token soup over the full vocabulary (every keyword incl. program/memory/init/def/call, every operator, identifiers, four integer kinds incl. malformed and overflowing ones and hex / octal / binary literals with bit 63 set (also as the width of a bits entry), X Z C, punctuation, newline, comments, junk: $ @ e-acute crab U+0085 U+2028 NUL CR TAB FF) behind a plausible header, mixed with statement-shaped fragments; (b) valid generated programs with 1-4 token deletions / duplications / swaps / replacements / insertions / gluings and truncation at any character boundary; (c, thorough) libFuzzer target parse_bytes on raw bytes seeded with the repository's test sources and a token dictionary. One text in twelve starts with a byte order mark. Oracle: from_str returns; no panic; for Err(e) every span in e.at has start <= end <= len on char boundaries; the error renders with miette's graphical handler. Non-trivial: the text has a header line and at least one further token; distinct by text."
+        "three generators: (a) token soup over the full vocabulary (every keyword incl. program/memory/init/def/call, every operator, identifiers, four integer kinds incl. malformed and overflowing ones and hex / octal / binary literals with bit 63 set (also as the width of a bits entry), X Z C, punctuation, newline, comments, junk: $ @ e-acute crab U+0085 U+2028 NUL CR TAB FF) behind a plausible header, mixed with statement-shaped fragments, or (1 in 16) a header of 63-130 columns with rows of 0 / 1 / C / X / Z entries that fill it; (b) valid generated programs with 1-4 token deletions / duplications / swaps / replacements / insertions / gluings and truncation at any character boundary; (c, thorough) libFuzzer target parse_bytes on raw bytes seeded with the repository's test sources and a token dictionary. One text in twelve starts with a byte order mark. Oracle: from_str returns; no panic; for Err(e) every span in e.at has start <= end <= len on char boundaries; the error renders with miette's graphical handler. Non-trivial: the text has a header line and at least one further token; distinct by text."
     }
     fn cases(&self, tier: Tier) -> u64 {
         match tier {
@@ -227,7 +253,7 @@ impl Property for C09 {
         }
     }
     fn required_classes(&self) -> Vec<&'static str> {
-        vec!["outcome:ok", "err:unexpected-eof", "err:unknown-token", "err:row-width", "err:number-parse", "gen:soup", "gen:mutated", "non-ascii", "kw:program-family", "leading-byte-order-mark", "err:too-many-bits"]
+        vec!["outcome:ok", "err:unexpected-eof", "err:unknown-token", "err:row-width", "err:number-parse", "gen:soup", "gen:mutated", "non-ascii", "kw:program-family", "leading-byte-order-mark", "err:too-many-bits", "header>=65-columns"]
     }
     fn check_raw(&self, _kind: &str, data: &[u8]) -> Option<(String, String)> {
         crate::fuzzglue::parse_bytes_kv(data)
@@ -284,6 +310,7 @@ impl Property for C09 {
             return out;
         }
         out.class_if(!text.is_ascii(), "non-ascii");
+        out.class_if(text.lines().next().map(|l| l.split_whitespace().count() >= 65).unwrap_or(false), "header>=65-columns");
         out.class_if(["program", "init", "memory", "def ", "call"].iter().any(|k| text.contains(k)), "kw:program-family");
         let (class, fail) = parse_oracle(&text);
         out.class(class);
